@@ -1,7 +1,8 @@
 From Coq Require Import List NArith Bool.
 From V.gen Require Consts PeerIdSites.
-From V.common Require Import Varint.
-From V.C18 Require Import Model Proofs.
+From V.common Require Import Varint Protobuf Sha256.
+From V.C18 Require Import Model Proofs KeyProofs Addr AddrProofs.
+From V.C19 Require Import Formats.
 Import ListNotations.
 Open Scope N_scope.
 From V.C18 Require Import Properties.
@@ -110,3 +111,125 @@ Check (C18_addr_text_canonical_partial :
   forall s p, ~ In SLASH s -> of_addr_text (SLASH :: NAME_P2P ++ SLASH :: s) = Some p ->
   (forall b, b58_decode s = Some b -> (length b <= length (digest p) + 10)%nat) ->
   SLASH :: NAME_P2P ++ SLASH :: s = to_addr_text p).
+Check (C18_keymsg_roundtrip :
+  forall m, k_type m < 2 ^ 32 -> len (k_data m) < 2 ^ 64 -> decode_keymsg (encode_keymsg m) = Some m).
+Check (C18_key_encoding_is_message :
+  (forall k, length k = 32%nat -> key_encoding (KEd k) = encode_keymsg (mkKeyMsg KT_ED25519 k)) /\
+  (forall pk, key_encoding (KRsa pk) = encode_keymsg (mkKeyMsg KT_RSA (spki pk)))).
+Check (C18_admission_tables :
+  KT_RSA = 0 /\ KT_ED25519 = 1 /\ KT_SECP256K1 = 2 /\ KT_ECDSA = 3 /\
+  key_types = V.gen.PeerIdSites.key_type_numbers /\
+  remote_admission = V.gen.PeerIdSites.remote_admission /\
+  local_admission = V.gen.PeerIdSites.local_admission).
+Check (C18_key_types :
+  map (admitted_type remote_admission false) key_types = [false; true; false; false] /\
+  map (admitted_type remote_admission true) key_types = [true; true; false; false] /\
+  map (admitted_type local_admission true) key_types = [false; true; false; false] /\
+  (forall rsa t, 4 <= t -> admitted_type remote_admission rsa t = false)).
+Check (C18_key_admission_sound :
+  forall on_curve x509 rsa b k, decode_pubkey on_curve x509 rsa b = Some k ->
+    exists m, decode_keymsg b = Some m /\
+    match k with
+    | KEd kk => k_type m = 1 /\ k_data m = kk /\ length kk = 32%nat /\ on_curve kk = true
+    | KRsa pk => k_type m = 0 /\ rsa = true /\ x509 (k_data m) = Some pk
+    end).
+Check (C18_key_admission_other_types :
+  forall on_curve x509 rsa b m,
+    decode_keymsg b = Some m -> k_type m <> 1 -> (k_type m <> 0 \/ rsa = false) ->
+    decode_pubkey on_curve x509 rsa b = None).
+Check (C18_key_admission_canonical :
+  forall on_curve x509 rsa,
+  (forall k, length k = 32%nat ->
+     decode_pubkey on_curve x509 rsa (key_encoding (KEd k)) = if on_curve k then Some (KEd k) else None) /\
+  (forall pk, len (spki pk) < 2 ^ 64 ->
+     decode_pubkey on_curve x509 rsa (key_encoding (KRsa pk)) =
+       if rsa then match x509 (spki pk) with Some pk' => Some (KRsa pk') | None => None end else None)).
+Check (C18_ed25519_try_from_bytes :
+  forall oc d k, ed25519_try_from_bytes oc d = Some k <-> (k = d /\ length d = 32%nat /\ oc d = true)).
+Check (C18_remote_identity_canonical :
+  forall on_curve x509 rsa (H : hash) b v p,
+    noise_identity (decode_pubkey on_curve x509 rsa) H b v = Some p ->
+    v = true /\ exists k, decode_pubkey on_curve x509 rsa b = Some k /\ p = derive H (key_encoding k) /\
+      match k with
+      | KEd kk => p = mkPid 0 (encode_ed25519 kk) /\ length kk = 32%nat /\ on_curve kk = true /\
+                  decode_pubkey on_curve x509 rsa (digest p) = Some (KEd kk)
+      | KRsa pk => rsa = true
+      end).
+Check (C18_remote_identity_one_id :
+  forall on_curve x509 rsa (H : hash) b1 b2 k,
+    decode_pubkey on_curve x509 rsa b1 = Some k -> decode_pubkey on_curve x509 rsa b2 = Some k ->
+    noise_identity (decode_pubkey on_curve x509 rsa) H b1 true =
+      noise_identity (decode_pubkey on_curve x509 rsa) H b2 true /\
+    tls_identity (decode_pubkey on_curve x509 rsa) H b1 true =
+      noise_identity (decode_pubkey on_curve x509 rsa) H b1 true).
+Check (C18_parse_sites :
+  parse_sites = V.gen.PeerIdSites.parse_sites).
+Check (C18_bytes_header :
+  forall b p, of_bytes b = Some p ->
+    exists h, b = h ++ digest p /\ (length h = 2 \/ length h = 11 \/ length h = 20)%nat /\
+              (length h = 2%nat -> h = [code p; len (digest p)])).
+Check (C18_bytes_canonical_iff :
+  forall b p, of_bytes b = Some p -> (to_bytes p = b <-> length b = (length (digest p) + 2)%nat)).
+Check (C18_bytes_noncanonical_length :
+  forall b p, of_bytes b = Some p -> to_bytes p <> b ->
+    (length b = length (to_bytes p) + 9 \/ length b = length (to_bytes p) + 18)%nat).
+Check (C18_text_canonical_iff :
+  forall t p, of_text t = Some p ->
+    (to_text p = t <-> exists b, b58_decode t = Some b /\ length b = (length (digest p) + 2)%nat)).
+Check (C18_component_canonical_iff :
+  forall b p, of_component b = Some p -> (to_component p = b <-> length b = (length (digest p) + 5)%nat)).
+Check (C18_strict_parser :
+  (forall b p, of_bytes_strict b = Some p <-> (valid p = true /\ b = to_bytes p)) /\
+  (forall b, of_bytes_strict b <> of_bytes b <->
+     exists p, of_bytes b = Some p /\
+               (length b = length (to_bytes p) + 9 \/ length b = length (to_bytes p) + 18)%nat)).
+Check (C18_text_error_variant :
+  forall t,
+  (of_text_err t = 0 <-> exists p, of_text t = Some p) /\
+  (of_text_err t = 1 <-> b58_decode t = None) /\
+  (of_text_err t = 2 <-> exists b, b58_decode t = Some b /\ of_bytes b = None)).
+Check (C18_is_public_key_total :
+  forall H p k, valid p = true -> is_public_key H p k <> None).
+Check (C18_is_public_key_other :
+  forall H k1 k2, length k1 = 32%nat -> length k2 = 32%nat -> k1 <> k2 ->
+    is_public_key H (from_public_key H k1) k2 = Some false).
+Check (C18_infallible_conversion :
+  forall p, valid p = true -> ref_admits p = true).
+Check (C18_multiaddr_roundtrip :
+  forall cs, forallb comp_ok cs = true -> maddr_parse (enc_maddr cs) = Ok cs).
+Check (C18_multiaddr_trailing_p2p :
+  forall cs p, forallb comp_ok cs = true -> valid p = true ->
+    of_maddr (enc_maddr (cs ++ [(P2P, to_bytes p)])) = Some p).
+Check (C18_multiaddr_id_valid :
+  forall b p, of_maddr b = Some p -> valid p = true).
+Check (C18_component_is_multiaddr :
+  forall p, valid p = true -> of_maddr (to_component p) = Some p /\ of_component (to_component p) = Some p).
+Check (C18_parsed_p2p_has_id :
+  forall b cs, maddr_parse b = Ok cs -> ends_with_p2p cs = true -> exists p, of_maddr b = Some p).
+Check (C18_address_record_new :
+  forall p b cs, maddr_parse b = Ok cs -> valid p = true ->
+    exists rb, record_new_bytes p b = Some rb /\ maddr_parse rb = Ok (record_new p cs) /\
+      (ends_with_p2p cs = false -> of_maddr rb = Some p) /\
+      (ends_with_p2p cs = true -> rb = b /\ exists q, of_maddr rb = Some q)).
+Check (C18_address_record_components :
+  forall p cs, forallb comp_ok cs = true -> valid p = true ->
+    ends_with_p2p (record_new p cs) = true /\
+    forallb comp_ok (record_new p cs) = true /\
+    (ends_with_p2p cs = false -> of_maddr (enc_maddr (record_new p cs)) = Some p) /\
+    (ends_with_p2p cs = true -> record_new p cs = cs)).
+Check (C18_derive_sha256 :
+  forall enc, derive sha256 enc = (if len enc <=? 42 then mkPid 0 enc else mkPid 18 (sha256 enc)) /\
+              derive_fast enc = derive sha256 enc).
+Check (C18_derived_roundtrip :
+  forall enc, bytes_ok enc = true ->
+    valid (derive sha256 enc) = true /\
+    of_bytes (to_bytes (derive sha256 enc)) = Some (derive sha256 enc) /\
+    of_text (to_text (derive sha256 enc)) = Some (derive sha256 enc) /\
+    of_component (to_component (derive sha256 enc)) = Some (derive sha256 enc)).
+Check (C18_text_noncanonical_length :
+  forall t p, of_text t = Some p -> to_text p <> t ->
+    exists b, b58_decode t = Some b /\
+      (length b = length (to_bytes p) + 9 \/ length b = length (to_bytes p) + 18)%nat).
+Check (C18_component_noncanonical_length :
+  forall b p, of_component b = Some p -> to_component p <> b ->
+    exists e, (length b = length (to_component p) + e)%nat /\ In e [3; 9; 12; 18; 21; 27; 30]%nat).
